@@ -2629,6 +2629,17 @@ def namespace_to_flowir(
 
     pattern_name = re.compile(SignatureNamePattern)
 
+    name_errors = [
+        experiment.model.errors.DSLInvalidFieldError(
+            location=comp.scope.dsl_location() + ["target"],
+            underlying_error=ValueError(
+                f"The step {comp.step_name} instantiates a Component, its name must match the pattern "
+                f"{SignatureNamePattern} (e.g. it cannot end with a digit)")
+        ) for comp in components.values() if pattern_name.fullmatch(comp.step_name) is None
+    ]
+    if name_errors:
+        raise experiment.model.errors.DSLInvalidError.from_errors(name_errors)
+
     for _, comp in components.items():
         assert isinstance(comp.scope.template, Component)
 
